@@ -165,11 +165,15 @@ def check_sqrt(cfg):
         a = a.reshape(-1, 1)
     T = SquareRootScale.SquareRootTransform()
     inv = T.inverted()
-    fwd = np.asarray(T.transform_non_affine(a))
+    fwd = T.transform_non_affine(a)
     ref = np.sqrt(a)
 
     def rel(x, y):
-        x, y = np.asarray(x, dtype=float), np.asarray(y, dtype=float)
+        # a masked entry is not a value (matplotlib drops the vertex): it counts as NaN, never as the data underneath the mask
+        x = np.ma.filled(np.ma.masked_invalid(np.ma.asarray(x, dtype=float)), np.nan) if np.ma.isMaskedArray(x) else np.asarray(x, dtype=float)
+        y = np.asarray(y, dtype=float)
+        if x.shape == y.shape and not np.all(np.isfinite(x)):
+            return float("inf")
         return float(np.max(np.abs(x - y) / np.maximum(np.abs(y), 1e-300))) if x.shape == y.shape else float("inf")
 
     obs = {"forward vs sqrt": rel(fwd, ref), "inverse(forward(a)) vs a": rel(inv.transform(T.transform_non_affine(a)), a), "forward(inverse(a)) vs a": rel(T.transform_non_affine(inv.transform(a)), a),
